@@ -54,7 +54,7 @@ Theorem C12_inband_same_config : forall c a,
   wf_cfg c -> find_chan (ch_id c) (a_chans a) = None ->
   exists ch,
     handle_dcep a (ch_id c) (marshal_open (open_of_chan c)) =
-      (mkApp (a_chans a ++ [ch]) (a_streams a),
+      (mkApp3 (a_chans a ++ [ch]) (a_streams a) (a_dcep a),
        [Ev (ch_id c) EOpen; NewDc ch; TxDcep (ch_id c) [DCEP_TYPE_ACK]], true) /\
     ch_id ch = ch_id c /\ ch_label ch = ch_label c /\ ch_proto ch = ch_proto c /\
     ch_ordered ch = ch_ordered c /\ ch_rex ch = ch_rex c /\ ch_life ch = ch_life c /\
@@ -133,20 +133,54 @@ Theorem C12_reconfig_example :
   encode_ssn_reset 0 0 1002 [5] = [0; 13; 0; 18; 0; 0; 0; 0; 0; 0; 0; 0; 0; 0; 3; 234; 0; 5; 0; 0].
 Proof. exact close_other_stream_keeps_stream0. Qed.
 
-(* ---- listed findings: model witnesses (replayed on the implementation by harness c12) ---- *)
+(* ---- listed finding F21: model witnesses (replayed on the implementation by harness c12) ---- *)
 
-(* class data_before_established: DATA overtaking the COOKIE-ACK is delivered before Open *)
-Theorem C12_message_before_open_refuted :
+(* ---- former findings F27 / F11b / F28, fixed in /repo (165fa18, 412d9a4) ---- *)
+
+(* no Message event while the association is not established, for every kind of input from the
+   start of run_loop (stays_down: no step of the history establishes the association); with
+   C12_establish_opens_negotiated: a negotiated channel announces Open before its first message *)
+Theorem C12_no_message_before_established : forall h st,
+  dormant st -> r_conn st <> SctpState_Connected -> stays_down st h ->
+  forall sid, log_of sid (snd (run st h)) = [].
+Proof. exact no_message_before_established. Qed.
+
+Theorem C12_message_after_open_fixed :
   evs_of 0 (snd (run (init_r 0 f11_rc)
-                     [IInitAck 5000 true; IData (D 5000 3 0 0 53 [97]); ICookieAck])) = [EMsg [97]; EOpen].
-Proof. exact message_before_open_witness. Qed.
+                     [IInitAck 5000 true; IData (D 5000 3 0 0 53 [97]); ICookieAck; IData (D 5000 3 0 0 53 [97])]))
+  = [EOpen; EMsg [97]].
+Proof. exact message_after_open_fixed. Qed.
 
-(* class setup_replay_before_established: duplicate delivery on an unordered reliable channel *)
-Theorem C12_unordered_duplicate_refuted :
+Theorem C12_unordered_no_duplicate_fixed :
   log_of 0 (snd (run (init_r 0 f11u_rc)
                      [IInitAck 5000 true; IData (D 5000 7 0 0 53 [97]); IInitAck 5000 true;
-                      IData (D 5000 7 0 0 53 [97]); ICookieAck])) = [[97]; [97]].
-Proof. exact unordered_duplicate_witness. Qed.
+                      IData (D 5000 7 0 0 53 [97]); ICookieAck; IData (D 5000 7 0 0 53 [97]); IData (D 5000 7 0 0 53 [97])]))
+  = [[97]].
+Proof. exact unordered_no_duplicate_fixed. Qed.
+
+(* a DCEP OPEN longer than one DATA chunk (1300-byte label, the two fragments send_dcep_open's
+   send_data_raw produces) is reassembled and creates the channel with that label; data follows *)
+Theorem C12_fragmented_open_reassembled :
+  let o := marshal_open (open_of_chan long_chan) in
+  let f1 := firstn 1172 o in
+  let f2 := skipn 1172 o in
+  let r := run (est_r 4999 [])
+               [IData (D 5000 6 101 0 DATA_CHANNEL_PPID_DCEP f1); IData (D 5001 5 101 0 DATA_CHANNEL_PPID_DCEP f2);
+                IData (D 5002 3 101 0 53 [104; 105])] in
+  Z.of_nat (length o) = 1313 /\ r_cum (fst r) = 5002 /\
+  evs_of 101 (snd r) = [EOpen; EMsg [104; 105]] /\
+  match a_chans (r_app (fst r)) with
+  | [ch] => ch_label ch = repeat 76 1300 /\ ch_proto ch = [112] /\ ch_ordered ch = true
+  | _ => False
+  end.
+Proof. exact fragmented_open_reassembled. Qed.
+
+(* a malformed OPEN is dropped and its chunk consumed: the association does not stall behind it *)
+Theorem C12_malformed_open_consumed :
+  let st := est_r 999 [] in
+  let c := D 1000 7 5 0 DATA_CHANNEL_PPID_DCEP [DCEP_TYPE_OPEN; 0; 0] in
+  r_cum (fst (recv_data st c)) = 1000 /\ snd (recv_data st c) = [] /\ a_chans (r_app (fst (recv_data st c))) = [].
+Proof. exact malformed_open_consumed. Qed.
 
 (* class forward_tsn (F21): no drain of the reorder queue after FORWARD-TSN; numeric comparison
    across the TSN wrap; stream/SSN pairs ignored for streams without state *)
